@@ -56,7 +56,6 @@ FlagWord(id) == << DASH, 111 + id >>               \* -p -q -r -s
 EqPrefix(id) == << DASH, DASH, 111 + id, EQ >>     \* --p=
 
 Absent(v)  == v.k \in {"unset", "none"}
-IsList(v)  == v.k = "list"
 ScalarKinds == {"str", "int", "float", "file"}
 
 JoinWith(es, c) == FlattenSeq([k \in 1..Len(es) |-> IF k = 1 THEN es[k] ELSE << c >> \o es[k]])
